@@ -131,6 +131,11 @@ func evalExecBlock(vm *r.VM, execBlock *syntax.ExecBlock, params []r.Element) (r
 	rtnValue, stmtBlockErr := evalStmtBlock(vm, execBlock.StmtBlock)
 
 	if stmtBlockErr != nil {
+		// 结束循环 / 继续循环 outside any loop of this body: the signal must not act on a loop
+		// of the caller - it ends the body like the same statement at top level does
+		if s, ok := stmtBlockErr.(*zerr.Signal); ok && (s.SigType == zerr.SigTypeBreak || s.SigType == zerr.SigTypeContinue) {
+			stmtBlockErr = zerr.NewErrorSLOT(s.Error())
+		}
 		return handleExceptionSignal(vm, blockModule, blockDepth, execBlock.CatchBlock, stmtBlockErr)
 	}
 
